@@ -4,6 +4,9 @@
        -> <new line> <offered> <applied n> (<kind> <from> <to> <ast 0|1|2>)*
           ast: 1 = the spec's reader maps both texts to the model's trees, 0 = it does not, 2 = no tree (checkAnd)
    e <orig text> <new text> <name> (U | V<hex>)*   -> one pair of letters per value: T F M X(outside the fragment)
+   E <orig text> <new text> <name> <k> (<nested name> <U | V<hex>>)*k (U | V<hex>)*
+       -> as e, with the k nested variables bound as given (every other variable undefined)
+   x <pattern> <k> (<name> <U | V<hex>>)*k -> the pattern as bmake expands it: S<hex> | N (outside the fragment)
    z <pattern> <word>*   -> "<first index whose word matches and is a number> <first index ... and is zero>" (-1 = none)
    p <text> -> 1 if the text is inside the fragment the spec reads, else 0 *)
 let flag s i = s.[i] = '1'
@@ -70,6 +73,20 @@ let handle (args : string list) : string =
     let o = bytes_of_hex orig and n = bytes_of_hex nw and nm = bytes_of_hex name in
     String.concat " " (List.map (fun tok ->
         let v = value_of tok in tri_letter (eval_text o nm v) ^ tri_letter (eval_text n nm v)) values)
+  | "E" :: orig :: nw :: name :: k :: rest ->
+    let o = bytes_of_hex orig and n = bytes_of_hex nw and nm = bytes_of_hex name in
+    let (nested, values) = take_pairs (int_of_string k) rest in
+    let nested = List.map (fun (a, b) -> (bytes_of_hex a, value_of b)) nested in
+    String.concat " " (List.map (fun tok ->
+        let binds = (nm, value_of tok) :: nested in
+        tri_letter (eval_text_env o binds) ^ tri_letter (eval_text_env n binds)) values)
+  | "x" :: pat :: k :: rest ->
+    let (nested, rest) = take_pairs (int_of_string k) rest in
+    if rest <> [] then "ERR:trailing tokens" else
+    let nested = List.map (fun (a, b) -> (bytes_of_hex a, value_of b)) nested in
+    (match expand_pat (env_of nested) (bytes_of_hex pat) with
+     | Some q -> "S" ^ hex_of_bytes q
+     | None -> "N")
   | "z" :: pat :: ws ->
     let p = bytes_of_hex pat in
     let firstnum = ref (-1) and firstzero = ref (-1) in
